@@ -117,13 +117,13 @@ def audit(pid):
     res = {n: None for n in names}
     text = out + err
     # "'Name' depends on axioms: [a, b]"  /  "'Name' does not depend on any axioms"
-    for m in re.finditer(r"'([^']+)' depends on axioms:\s*\[([^\]]*)\]", text, re.S):
+    for m in re.finditer(r"'(\S+)' depends on axioms:\s*\[([^\]]*)\]", text, re.S):
         short = m.group(1).split(".")[-1]
         axs = sorted(a.strip() for a in m.group(2).replace("\n", " ").split(",") if a.strip())
         for n in names:
             if n == m.group(1) or n.split(".")[-1] == short:
                 res[n] = axs
-    for m in re.finditer(r"'([^']+)' does not depend on any axioms", text):
+    for m in re.finditer(r"'(\S+)' does not depend on any axioms", text):
         short = m.group(1).split(".")[-1]
         for n in names:
             if n == m.group(1) or n.split(".")[-1] == short:
